@@ -24,6 +24,14 @@ class Undecided(Exception):
     pass
 
 
+class LoopsChanged(Undecided):
+    """The loop structure of a function with loop contracts changed: the contracts (keyed by ordinal) cannot be
+    applied.  The proof is re-run in DEGRADED mode: no loop contracts, every loop unwound a few times without
+    unwinding assertions.  States reached that way are real (an under-approximation), so a FAILURE found there is a
+    genuine counterexample and is reported as a violation; finding none proves nothing and the result stays UNDECIDED."""
+    pass
+
+
 def sh(cmd, cwd=None, timeout=None, mem_gb=None, stdout=None):
     """Run a command; returns (rc, out, err, seconds)."""
     pre = None
@@ -244,9 +252,9 @@ def build_proof(proof, tmp, log):
             got = fingerprint_loops(a, set(want.keys()), tmp)
             for fn, n in want.items():
                 if len(got.get(fn, [])) != n:
-                    raise Undecided("loop fingerprint mismatch in %s: expected %d loops, found %d (%s) - "
-                                    "loop contracts are keyed by ordinal and must be re-derived"
-                                    % (fn, n, len(got.get(fn, [])), got.get(fn)))
+                    raise LoopsChanged("loop fingerprint mismatch in %s: expected %d loops, found %d (%s) - "
+                                       "loop contracts are keyed by ordinal and must be re-derived"
+                                       % (fn, n, len(got.get(fn, [])), got.get(fn)))
 
     mode = proof.get("mode", "dfcc")
     if mode == "plain":
@@ -349,8 +357,20 @@ def run_proof(proof, tier, keep=False, backend=None):
                enforce=proof.get("enforce"), replaced=proof.get("replace", []),
                twins=proof.get("twins", {}), obligations=[], undecided=None, log=log,
                backend=backend or proof.get("backend", "minisat"))
+    degraded = None
     try:
-        gb = build_proof(proof, tmp, log)
+        try:
+            gb = build_proof(proof, tmp, log)
+        except LoopsChanged as e:
+            degraded = str(e)
+            p2 = dict(proof)
+            p2.pop("loops", None); p2.pop("loop_fingerprint", None); p2.pop("unwindset", None)
+            p2["unwind"] = 4
+            p2["cbmc_flags"] = [f for f in proof.get("cbmc_flags", STD_CHECKS) if f != "--unwinding-assertions"] + ["--no-unwinding-assertions"]
+            p2["must_exist"] = []
+            proof = p2
+            log.append("DEGRADED MODE: " + degraded)
+            gb = build_proof(proof, tmp, log)
         r = run_cbmc(proof, gb, tmp, log, backend=backend)
         res["solver_s"] = r["secs"]
         res["cmd"] = r["cmd"]
@@ -375,13 +395,17 @@ def run_proof(proof, tier, keep=False, backend=None):
             if not any(rx.search(n) for n in names):
                 raise Undecided("expected obligation matching /%s/ is absent - contract or loop contract "
                                 "silently dropped?" % pat)
+        # a FAILURE of a real obligation is a verdict whatever the cover points say (a change can make a cover point
+        # unreachable AND fail obligations: that is a violation, not a vacuity problem); the vacuity guard only
+        # protects runs in which everything "passed"
+        any_failure = any(ob["kind"] != "cover" and ob["status"] == "FAILURE" for ob in res["obligations"])
         ncover = 0
         for ob in res["obligations"]:
             if ob["kind"] == "cover":
                 ncover += 1
-                if ob["status"] != "FAILURE":
+                if ob["status"] != "FAILURE" and not degraded and not any_failure:
                     raise Undecided("cover point unreachable (vacuous precondition?): %s" % ob["desc"])
-        if ncover < proof.get("min_covers", 1):
+        if ncover < proof.get("min_covers", 1) and not degraded and not any_failure:
             raise Undecided("fewer cover points than required (%d < %d)" % (ncover, proof.get("min_covers", 1)))
         # expected failures (canary mode)
         # counterexamples for real failures
@@ -398,6 +422,16 @@ def run_proof(proof, tier, keep=False, backend=None):
                 raise Undecided("obligation %s has status %s" % (ob["name"], ob["status"]))
         if hard:
             res["obligations"] = [ob for ob in res["obligations"] if ob["status"] in ("SUCCESS", "FAILURE")]
+        if degraded:
+            if hard:
+                res["degraded"] = degraded
+                # only genuine counterexamples are kept; everything else of this run is meaningless
+                res["obligations"] = [ob for ob in res["obligations"] if ob["status"] == "FAILURE" or ob["kind"] == "cover"]
+                for ob in res["obligations"]:
+                    if ob["kind"] != "cover":
+                        ob["desc"] = "[found in degraded bounded mode after the loop structure changed] " + ob["desc"]
+            else:
+                raise Undecided(degraded + " (degraded bounded run found no counterexample)")
     except Undecided as e:
         res["undecided"] = str(e)
     except Exception as e:  # tool/driver crash is never a violation
